@@ -122,6 +122,10 @@ def oracle_2d(case, io, fails):
                 if a == 1 and rsub_diff[i]:
                     continue
                 if nc and B[a][0][i][0] > 0:
+                    if any(not math.isfinite(x) for x in row):
+                        fails.append(("row_proportions not-finite-on-positive-base", {"row": i, "inserted": a == 1},
+                                      {"measure": "row_proportions", "oracle": "sum_one"}))
+                        continue
                     s = sum(Fraction(x) for x in row)
                     if abs(s - 1) > Fraction(1, 10**9):
                         fails.append(("row_proportions do-not-sum-to-1", {"row": i, "inserted": a == 1, "sum": float(s)},
@@ -135,6 +139,10 @@ def oracle_2d(case, io, fails):
                     continue
                 col = [P[0][b][i][j] for i in range(nr)]
                 if nr and B[0][b][0][j] > 0:
+                    if any(not math.isfinite(x) for x in col):
+                        fails.append(("column_proportions not-finite-on-positive-base", {"col": j, "inserted": b == 1},
+                                      {"measure": "column_proportions", "oracle": "sum_one"}))
+                        continue
                     s = sum(Fraction(x) for x in col)
                     if abs(s - 1) > Fraction(1, 10**9):
                         fails.append(("column_proportions do-not-sum-to-1", {"col": j, "inserted": b == 1, "sum": float(s)},
